@@ -59,6 +59,7 @@ def parseEv (j : Json) : R TEv := do
       | "more", [c, n] => do return Ev.more (← c.getNat?) (← n.getNat?)
       | "isend", [c, conn, n, d] => do return Ev.isend (← c.getNat?) (← conn.getNat?) (← n.getNat?) (← getBytes d)
       | "busy", [c] => do return Ev.busy (← c.getNat?)
+      | "drop", [c] => do return Ev.drop (← c.getNat?)
       | "idend", [c, ok] => do return Ev.idend (← c.getNat?) (← ok.getBool?)
       | _, _ => throw s!"bad event {j.compress}")
     return ⟨t, ev⟩
@@ -116,6 +117,7 @@ def handle (j : Json) : R Json := do
       ("multicomm_atomic", multicommAtomicB evs),
       ("exchange_atomic", exchangeAtomicB evs),
       ("delays_honoured", delaysHonouredB evs),
+      ("transaction_protected", transactionProtectedB evs),
       ("stale_discarded", staleDiscardedB cfg.bytesMode cfg.eol evs),
       ("reply_pairing", replyPairingB cfg.bytesMode cfg.eol evs),
       ("fails_within_timeout", failsWithinTimeoutB cfg evs),
